@@ -36,8 +36,9 @@ func (c25Engine) Name() string     { return "passwd-hist" }
 func (c25Engine) Property() string { return "C25" }
 func (c25Engine) WarmupRuns() int  { return 2 }
 
-var c25Users = []string{"ann", "ben", "cat", "dan"} // formats: bcrypt, legacy, plaintext, legacy-without-logon
-var c25True = map[string]string{"ann": "Secret-1", "ben": "pass word", "cat": "Tr0ub4dor", "dan": "hunter2"}
+var c25Users = []string{"ann", "ben", "cat", "dan", "eve"} // formats: bcrypt, legacy, plaintext, legacy-without-logon, legacy with a passphrase longer than bcrypt's 72-byte input limit
+var c25True = map[string]string{"ann": "Secret-1", "ben": "pass word", "cat": "Tr0ub4dor", "dan": "hunter2",
+	"eve": "correct horse battery staple, and then quite a few more words so that the passphrase is well over seventy-two bytes long"}
 
 // faulty wraps a store and fails the next WriteUser / Flush on demand (existing AuthService seam).
 type c25Faulty struct {
@@ -64,7 +65,7 @@ func (f *c25Faulty) Flush() error {
 	return f.userIOService.Flush()
 }
 
-// Ops: login [user(0..4; 4 = unknown user), spelling(0 exact,1 upper,2 mixed), candidate(0 right,1 wrong,2 empty,3 case variant,4 right+space)]
+// Ops: login [user(0..5; 5 = unknown user), spelling(0 exact,1 upper,2 mixed), candidate(0 right,1 wrong,2 empty,3 case variant,4 right+space,5 same first 72 bytes but another tail)]
 // plaintext [on] ; perm [user, which(0 logon,1 root), on] ; flush ; reopen ; crash ; failwrite ; failflush ; advance [s] ; purge
 func (c25Engine) Generate(seed uint64, tier string) *simrun.Case {
 	r := sim.NewRand(seed)
@@ -77,13 +78,13 @@ func (c25Engine) Generate(seed uint64, tier string) *simrun.Case {
 		case x < 55:
 			cand := int64(0)
 			if r.Chance(1, 2) {
-				cand = int64(r.Intn(5))
+				cand = int64(r.Intn(6))
 			}
-			c.Ops = append(c.Ops, simrun.Op{K: "login", A: []int64{int64(r.Intn(5)), int64(r.Intn(3)), cand}})
+			c.Ops = append(c.Ops, simrun.Op{K: "login", A: []int64{int64(r.Intn(6)), int64(r.Intn(3)), cand}})
 		case x < 60:
 			c.Ops = append(c.Ops, simrun.Op{K: "plaintext", A: []int64{int64(r.Intn(2))}})
 		case x < 68:
-			c.Ops = append(c.Ops, simrun.Op{K: "perm", A: []int64{int64(r.Intn(4)), int64(r.Intn(2)), int64(r.Intn(2))}})
+			c.Ops = append(c.Ops, simrun.Op{K: "perm", A: []int64{int64(r.Intn(5)), int64(r.Intn(2)), int64(r.Intn(2))}})
 		case x < 72:
 			c.Ops = append(c.Ops, simrun.Op{K: "flush"})
 		case x < 78:
@@ -161,8 +162,9 @@ func (c25Engine) Execute(t *testing.T, c *simrun.Case, keepLog bool) *simrun.Out
 				{Name: "ben", Password: egostrings.HashString(c25True["ben"]), Permissions: []string{defs.LogonPermission}},
 				{Name: "cat", Password: "{" + c25True["cat"] + "}", Permissions: []string{defs.RootPermission}},
 				{Name: "dan", Password: egostrings.HashString(c25True["dan"]), Permissions: []string{"ego.table.read"}},
+				{Name: "eve", Password: egostrings.HashString(c25True["eve"]), Permissions: []string{defs.LogonPermission}},
 			}
-			model := map[string]*c25Model{"ann": {"bcrypt", true, false}, "ben": {"legacy", true, false}, "cat": {"plaintext", false, true}, "dan": {"legacy", false, false}}
+			model := map[string]*c25Model{"ann": {"bcrypt", true, false}, "ben": {"legacy", true, false}, "cat": {"plaintext", false, true}, "dan": {"legacy", false, false}, "eve": {"legacy", true, false}}
 			durable := map[string]c25Model{}
 			for _, u := range seed {
 				if e := real.WriteUser(0, u); e != nil {
@@ -182,7 +184,7 @@ func (c25Engine) Execute(t *testing.T, c *simrun.Case, keepLog bool) *simrun.Out
 				switch op.K {
 				case "login":
 					name := "zoe"
-					if op.Arg(0) < 4 {
+					if op.Arg(0) < 5 {
 						name = c25Users[op.Arg(0)]
 					}
 					spelled := name
@@ -194,7 +196,7 @@ func (c25Engine) Execute(t *testing.T, c *simrun.Case, keepLog bool) *simrun.Out
 					}
 					truth := c25True[name]
 					cand := truth
-					switch op.Arg(2) % 5 {
+					switch op.Arg(2) % 6 {
 					case 1:
 						cand = "definitely-wrong"
 					case 2:
@@ -206,6 +208,12 @@ func (c25Engine) Execute(t *testing.T, c *simrun.Case, keepLog bool) *simrun.Out
 						}
 					case 4:
 						cand = truth + " "
+					case 5:
+						if len(truth) > 72 {
+							cand = truth[:72] + " but a different ending"
+						} else {
+							cand = truth + "x"
+						}
 					}
 					m := model[name]
 					want := m != nil && cand == truth && cand != "" && (m.format != "plaintext" || plain) && (m.logon || m.root)
@@ -238,7 +246,7 @@ func (c25Engine) Execute(t *testing.T, c *simrun.Case, keepLog bool) *simrun.Out
 					plain = op.Arg(0) == 1
 					setPlain(plain)
 				case "perm":
-					name := c25Users[op.Arg(0)%4]
+					name := c25Users[op.Arg(0)%5]
 					perm := []string{defs.LogonPermission, defs.RootPermission}[op.Arg(1)%2]
 					on := op.Arg(2) == 1
 					if e := setPermission(1, name, perm, on); e == nil {
